@@ -106,8 +106,10 @@ def truth_boundaries(case):
             out += [float(x) for x in p['z']]
     ap = case.get('setup', {}).get('axial_plane')
     if ap is not None:
+        # requested planes outside the core are ignored (with a warning)
         out += [float(x) for x in (ap if isinstance(ap, (list, tuple))
-                                   else [ap])]
+                                   else [ap])
+                if 0.0 <= float(x) <= float(case['L'])]
     return sorted(set(out))
 
 
